@@ -40,8 +40,17 @@ SHAPES = {
     "RA+M": {"A": ("R", "*M")},                       # class A(Root, Mixin): mixin last
     "RA,M+AB": {"A": ("R",), "B": ("*M", "A")},       # class B(Mixin, A): mixin first, two levels below the root
     "diamond": {"A": ("R",), "B": ("R",), "D": ("A", "B")},
+    # the library's real ancestry above the root: X = BaseImage, G = GraphicsImage (TextImage for block); only the
+    # settings that exist at the abstract levels (forced support) are operated and observed there
+    "XG>R": {"X": (), "G": ("X",), "R": ("G",)},
+    "XG>RA": {"X": (), "G": ("X",), "R": ("G",), "A": ("R",)},
+    # class A(Root, metaclass=<a metaclass derived from the root's metaclass>)
+    "RAm": {"A": ("R",)},
 }
-SHAPE_INSTANCES = {"diamond": ("D",), "RA,M+AB": ("A", "B")}
+SHAPE_INSTANCES = {"diamond": ("D",), "RA,M+AB": ("A", "B"), "XG>R": ("R",), "XG>RA": ("R", "A")}
+SHAPE_DERIVED_META = {"RAm": ("A",)}
+ABSTRACT = ("X", "G")
+FAMILY = dict(kitty="graphics", iterm2="graphics", block="text")
 IDENT = dict(kitty="kitty", iterm2="wezterm", block="kitty")
 METHODS = dict(kitty=("lines", "whole"), iterm2=("lines", "whole", "anim"), block=())
 RM_DEFAULT = dict(kitty="lines", iterm2="lines", block=None)
@@ -56,9 +65,11 @@ RAW_ATTRS = ("_render_method", "_forced_support", "_jpeg_quality", "_read_from_f
 class Model:
     def __init__(self, root, shape):
         self.root = root
-        bases = {"R": ()}
-        bases.update(SHAPES[shape])
+        bases = dict(SHAPES[shape])
+        if "R" not in bases:
+            bases = dict({"R": ()}, **bases)
         self.classes = list(bases)
+        self.concrete = [c for c in self.classes if c not in ABSTRACT]
         self.instances = ["i" + c for c in SHAPE_INSTANCES.get(shape, self.classes)]
         # resolution order = Python's MRO of a shadow hierarchy of plain classes (nothing of the library in it)
         shadow = {"*M": type("M", (), {})}
@@ -101,13 +112,26 @@ class Model:
                 return x
         return None
 
+    def node_settings(self, n):
+        return ["fs"] if n in ABSTRACT else self.settings
+
     def snapshot(self):
-        snap = {(n, s): self.eff(s, n) for n in self.classes + self.instances for s in self.settings}
-        # the library's other style classes (siblings of the root) and the common base never change
+        snap = {(n, s): self.eff(s, n) for n in self.classes + self.instances for s in self.node_settings(n)}
+        # the library's other style classes (siblings of the root) and the common base: they never change, except
+        # that they follow the abstract levels when those are nodes of the tree
         for name in ("kitty", "iterm2", "block", "base"):
             if name != self.root:
                 snap[("lib:" + name, "rm")] = RM_DEFAULT.get(name)
-                snap[("lib:" + name, "fs")] = False
+                fs = False
+                if "X" in self.classes and name != "base":
+                    follows = ["G", "X"] if FAMILY[name] == FAMILY[self.root] else ["X"]
+                    for x in follows:
+                        if x in self.ov["fs"]:
+                            fs = self.ov["fs"][x]
+                            break
+                if "X" in self.classes and name == "base":
+                    fs = self.ov["fs"].get("X", False)
+                snap[("lib:" + name, "fs")] = fs
         return snap
 
     def apply(self, op):
@@ -207,16 +231,26 @@ def build(L, prog, file_backed=False, unsupported=False):
     """Fresh world (library classes reset), fresh subclasses, one fresh instance per class."""
     root = prog["root"]
     world.setup(IDENT[root], TERM[0], TERM[1], cell=CELL)
+    # reset_world() deletes _forced_support / _jpeg_quality / ... from the library style classes *after* restoring
+    # the import-time state; a class that declares one of them in its body must keep its declaration
+    world.restore_library_state()
     Root = dict(kitty=L.image.KittyImage, iterm2=L.image.ITerm2Image, block=L.image.BlockImage)[root]
     if "_native_anim_max_bytes" in vars(Root):      # never legitimately stored on a class; reset_world leaves it
         delattr(Root, "_native_anim_max_bytes")
     T = Tree()
     T.root = root
     T.model = Model(root, prog["shape"])
-    T.nodes = {"R": Root}
+    T.nodes = {"R": Root, "X": L.common.BaseImage,
+               "G": L.common.GraphicsImage if FAMILY[root] == "graphics" else L.common.TextImage}
     mixin = type("Tagged", (), {})                  # a user mixin that is not a style class
     for name, bases in SHAPES[prog["shape"]].items():
-        T.nodes[name] = type(name, tuple(mixin if b == "*M" else T.nodes[b] for b in bases), {})
+        if name in ("R",) + ABSTRACT:
+            continue                                # library classes
+        meta = type(Root)
+        if name in SHAPE_DERIVED_META.get(prog["shape"], ()):
+            meta = type("DerivedMeta", (type(Root),), {})      # a user metaclass deriving from the library's
+        T.nodes[name] = meta(name, tuple(mixin if b == "*M" else T.nodes[b] for b in bases), {})
+    T.nodes = {n: o for n, o in T.nodes.items() if n in T.model.classes}
     T.file_backed = file_backed
     for i in T.model.instances:
         T.nodes[i] = new_instance(T, i[1:])
@@ -225,7 +259,7 @@ def build(L, prog, file_backed=False, unsupported=False):
         cfg = dict(world.IDENTITIES["other"], fg=b"rgb:ffff/ffff/ffff", bg=b"rgb:0000/0000/0000")
         world.W.tty.responder = world.Responder(**cfg)
         L.utils.get_terminal_name_version._invalidate_cache()
-        for c in T.model.classes:
+        for c in T.model.concrete:
             if "_supported" in vars(T.nodes[c]):
                 delattr(T.nodes[c], "_supported")
     T.unsupported = unsupported
@@ -279,9 +313,11 @@ def impl_snapshot(L, T):
     m = T.model
     for n in m.classes + m.instances:
         obj = T.nodes[n]
+        snap[(n, "fs")] = obj.forced_support
+        if n in ABSTRACT:
+            continue
         rm = getattr(obj, "_render_method", None)      # the lookup `self._render_method` of the renderers
         snap[(n, "rm")] = rm.lower() if isinstance(rm, str) else rm
-        snap[(n, "fs")] = obj.forced_support
         if T.root == "iterm2":
             snap[(n, "jq")] = obj.jpeg_quality
             snap[(n, "rff")] = obj.read_from_file
@@ -320,6 +356,8 @@ def relation(m, target, wrong):
 def node_kind(n):
     if n.startswith("lib:"):
         return n
+    if n in ABSTRACT:
+        return "library-ancestor"
     return "instance" if n.startswith("i") else ("root" if n == "R" else "subclass")
 
 
@@ -395,7 +433,7 @@ def judge_transition(col, L, prog, T, history, op, case):
                           f"{[(k, after.get(k), want[k]) for k in wrong][:6]}", case)
     if T.unsupported:
         # forced support decides whether the style can be instantiated on a terminal without support
-        for c in m.classes:
+        for c in (m.concrete if FAMILY[T.root] == "graphics" else ()):
             try:
                 T.nodes[c](source_pil())
                 got = True
@@ -457,7 +495,7 @@ def render_observations(col, L, prog, history, case, quick=False):
     if prog["group"] in ("rm", "mixed"):
         iterator_observations(col, L, prog, T, history, case)
         override_equals_effective(col, L, prog, T, history, case)
-    nodes = m.classes + m.instances
+    nodes = m.concrete + m.instances
     if quick:                              # quick tier: a fresh instance of the most derived class only
         nodes = m.classes[-1:] + m.instances
     for n in nodes:
@@ -713,16 +751,18 @@ def programs(tier):
     progs = []
     for root in ("kitty", "iterm2", "block"):
         groups = ["rm", "fs"] + (["jq", "rff", "nab"] if root == "iterm2" else [])
-        shapes = list(SHAPES) if root != "block" else ["RA"]
+        shapes = list(SHAPES) if root != "block" else ["RA", "XG>RA"]
         for shape in shapes:
             for g in groups:
-                if root == "block" and g == "fs":
+                if shape.startswith("XG>") and g != "fs":
+                    continue          # only forced support exists at the abstract levels
+                if root == "block" and g == "fs" and not shape.startswith("XG>"):
                     continue
                 if quick and shape == "RA+RB" and g in ("jq", "rff"):
                     continue          # quick tier: sibling classes are explored for rm / fs / nab only
                 if quick and shape == "RA,M+AB":
                     continue          # quick tier: the mixin shapes directly under the root and the diamond only
-                bg = (not quick) or shape == "RA" or g in ("fs", "nab")
+                bg = (not quick) or shape in ("RA", "RAm") or g in ("fs", "nab")
                 progs.append(dict(root=root, shape=shape, group=g, background=bg, kind="bfs"))
     for root in ("kitty", "iterm2"):
         progs.append(dict(root=root, shape="RA", group="mixed", background=False, kind="bfs",
